@@ -25,6 +25,7 @@ ASSUMPTIONS = [
     "T <= 3 templates, rotation sets of K in {1,2,3,5,9} elements, box 12^3; particles are asymmetric sums of Gaussians (no symmetry-related candidates)",
     "searched rotations differ by >= 20 degrees so that candidates are separated by more than the interpolation error of the rotated templates",
     "brute-force comparison uses rotated templates built with scipy (order 3) outside the library; ties within 0.02 score are don't-care",
+    "models ZNCC, PCC (thorough: NCC); FSC is not enumerated here: its unweighted mean over shells is dominated by shells that hold only interpolation noise of the rotated smooth templates (see C04 for the FSC data class)",
 ]
 
 SHAPE = (12, 12, 12)
@@ -65,14 +66,14 @@ def _rotsets(tier):
 
 
 def AXES(tier):
-    return {"T": [1, 2, 3], "rotation_set": _rotsets(tier), "model": ["ZNCC", "PCC"] + (["NCC", "FSC"] if tier == "thorough" else []),
+    return {"T": [1, 2, 3], "rotation_set": _rotsets(tier), "model": ["ZNCC", "PCC"] + (["NCC"] if tier == "thorough" else []),
             "displacement": DISP, "entry": ["Model.align", "Model.fit", "loader.align(stack)", "loader.align_multi_templates",
                                             "group.align_multi_templates(list)", "group.align_multi_templates(mapping)", "brute-force"]}
 
 
 def cases(tier, seed):
     out = []
-    models = ["ZNCC", "PCC"] + (["NCC", "FSC"] if tier == "thorough" else [])
+    models = ["ZNCC", "PCC"] + (["NCC"] if tier == "thorough" else [])
     for T in (1, 2, 3):
         for rs in _rotsets(tier):
             K = _K(rs)
@@ -156,10 +157,11 @@ def run_case(case):
     quats = np.asarray(model.quaternions)
     assert quats.shape[0] == K, (quats.shape, K)
     Rk = Rotation.from_quat(quats[k]).as_matrix()
-    img = _planted(j, Rk, d)
+    # the uncentred NCC score is not offset-invariant (C07): no background for that model
+    img = _planted(j, Rk, d, offset=0.0 if mname == "NCC" else 0.3)
     kind = f"T{'>1' if T > 1 else '=1'},K{'>1' if K > 1 else '=1'}"
     viol = []
-    sig = lambda entry, what: f"{ID}|{entry}|{what}|{kind}"  # noqa
+    sig = lambda entry, what: f"{ID}|{entry}[{mname}]|{what}|{kind}"  # noqa
     res = model.align(img, MAXSHIFT)
     kk = _which_rotation(res.quat, quats)
     if kk != k:
@@ -231,15 +233,15 @@ def _run_brute(case):
         jk = (lab % T, lab // T) if K > 1 else (lab, 0)
         norm = 1.0 if mname != "PCC" else max(abs(best), 1e-12)
         if jk not in scores:
-            viol.append((f"{ID}|brute-force|label-out-of-range|{kind}", f"label {lab} for T={T}, K={K}"))
+            viol.append((f"{ID}|brute-force[{mname}]|label-out-of-range|{kind}", f"label {lab} for T={T}, K={K}"))
             continue
         if (best - scores[jk]) / norm > 0.02:
-            viol.append((f"{ID}|brute-force|not-the-best-candidate|{kind}", f"input {ii}: reported candidate {jk} scores {scores[jk]:.4f} alone, best single candidate {max(scores, key=scores.get)} scores {best:.4f}"))
+            viol.append((f"{ID}|brute-force[{mname}]|not-the-best-candidate|{kind}", f"input {ii}: reported candidate {jk} scores {scores[jk]:.4f} alone, best single candidate {max(scores, key=scores.get)} scores {best:.4f}"))
         if abs(float(res.score) - scores[jk]) / norm > 0.02:
-            viol.append((f"{ID}|brute-force|score-mismatch|{kind}", f"input {ii}: reported score {float(res.score):.4f}, candidate {jk} alone scores {scores[jk]:.4f}"))
+            viol.append((f"{ID}|brute-force[{mname}]|score-mismatch|{kind}", f"input {ii}: reported score {float(res.score):.4f}, candidate {jk} alone scores {scores[jk]:.4f}"))
         kk = _which_rotation(res.quat, quats)
         if kk != jk[1]:
-            viol.append((f"{ID}|brute-force|rotation-label-disagree|{kind}", f"input {ii}: label {lab} -> rotation {jk[1]}, but reported quat is rotation {kk}"))
+            viol.append((f"{ID}|brute-force[{mname}]|rotation-label-disagree|{kind}", f"input {ii}: label {lab} -> rotation {jk[1]}, but reported quat is rotation {kk}"))
     return {"nontrivial": bool(T * K > 1), "outcome": f"brute|{kind}|{'viol' if viol else 'ok'}", "viol": viol}
 
 
